@@ -289,6 +289,10 @@ type Store struct {
 	// TEVetoAtCreate makes the storage's CreateTokenExchangeRequest hook (the second token-exchange hook, after
 	// ValidateTokenExchangeRequest passed) refuse the request with invalid_target.
 	TEVetoAtCreate bool
+	// TEVetoAtClaims makes the storage's claim hooks for token exchange (GetPrivateClaimsFromTokenExchangeRequest,
+	// SetUserinfoFromTokenExchangeRequest) refuse with access_denied: a storage-side rejection that is not a fault
+	// (journaled with Err, Fault unset). They run only where the issued token carries claims (JWT access token, ID token).
+	TEVetoAtClaims bool
 	// TEGrantNil makes ValidateTokenExchangeRequest grant NO scope by calling SetCurrentScopes(nil) (a storage that
 	// builds the granted list with `var granted []string` + append and grants nothing).
 	TEGrantNil bool
@@ -1349,9 +1353,14 @@ func (s *Store) createTokenExchangeRequest(ctx context.Context, req op.TokenExch
 func (s *Store) getPrivateClaimsFromTokenExchangeRequest(ctx context.Context, req op.TokenExchangeRequest) (map[string]any, error) {
 	s.mu.Lock()
 	defer s.mu.Unlock()
-	_, ferr := s.enter("GetPrivateClaimsFromTokenExchangeRequest", req.GetSubject(), "", "", nil)
+	idx, ferr := s.enter("GetPrivateClaimsFromTokenExchangeRequest", req.GetSubject(), "", "", nil)
 	if ferr != nil {
 		return nil, ferr
+	}
+	if s.TEVetoAtClaims {
+		err := oidc.ErrAccessDenied().WithDescription("vstore policy veto at GetPrivateClaimsFromTokenExchangeRequest")
+		s.leave(idx, "", err)
+		return nil, err
 	}
 	out := map[string]any{}
 	for k, v := range s.PrivateClaims {
@@ -1366,9 +1375,14 @@ func (s *Store) getPrivateClaimsFromTokenExchangeRequest(ctx context.Context, re
 func (s *Store) setUserinfoFromTokenExchangeRequest(ctx context.Context, ui *oidc.UserInfo, req op.TokenExchangeRequest) error {
 	s.mu.Lock()
 	defer s.mu.Unlock()
-	_, ferr := s.enter("SetUserinfoFromTokenExchangeRequest", req.GetSubject(), "", "", nil)
+	idx, ferr := s.enter("SetUserinfoFromTokenExchangeRequest", req.GetSubject(), "", "", nil)
 	if ferr != nil {
 		return ferr
+	}
+	if s.TEVetoAtClaims {
+		err := oidc.ErrAccessDenied().WithDescription("vstore policy veto at SetUserinfoFromTokenExchangeRequest")
+		s.leave(idx, "", err)
+		return err
 	}
 	if !s.TEUISubByScope {
 		ui.Subject = req.GetSubject()
